@@ -151,7 +151,15 @@ template <class D> i128 gen_count(vf::Src& s, bool forTimePoint = false) {
 	}
 }
 
+// history: an earlier conversion that was rejected (in any string width) must leave nothing behind for the next one
+inline void rejected_conversion_before(vf::Ctx& c) {
+	if (!c.src.chance(1, 5)) return; c.label("after-a-rejected-conversion");
+	static const char* bad[] = { "2024-02-31T10:30:00Z", "2024-13-01T00:00:00Z", "P1X", "PT", "2024-01-01T25:00:00Z", "not a date", "2024-01-01T00:00:00.1234567890Z" };
+	const std::string s = bad[c.src.draw(7)]; const uint64_t w = c.src.draw(4);
+	try { if (w == 0) (void)Convert::To<time_point<system_clock, seconds>>(s); else if (w == 1) (void)Convert::To<time_point<system_clock, seconds>>(std::u16string(s.begin(), s.end())); else if (w == 2) (void)Convert::To<time_point<system_clock, milliseconds>>(std::u32string(s.begin(), s.end())); else (void)Convert::To<seconds>(std::wstring(s.begin(), s.end())); } catch (const std::exception&) { }
+}
 template <class D> void prop_tp(vf::Ctx& c) {
+	rejected_conversion_before(c);
 	i128 count = gen_count<D>(c.src, true);
 	c.describe(vf::cat("tp ", dname<D>(), " ", refcal::i128s(count)));
 	if (near_range_end<D>(count) || beyond_printable<D>(count)) { c.label(near_range_end<D>(count) ? "excluded:KF-33-range-end" : "excluded:KF-33-year-beyond-buffer"); c.discard("KF-33"); }
@@ -162,6 +170,7 @@ template <class D> void prop_tp(vf::Ctx& c) {
 	if (const char* e = check_msgpack(tp, d)) c.fail(e, d);
 }
 template <class D> void prop_dur(vf::Ctx& c) {
+	rejected_conversion_before(c);
 	i128 count = gen_count<D>(c.src);
 	c.describe(vf::cat("dur ", dname<D>(), " ", refcal::i128s(count)));
 	c.nontrivial = count < 0 || count > 86400;
